@@ -659,6 +659,13 @@ def table_attr(it, t, name):
                 return Series(t, col)
             return default
         return nat(get)
+    if name == "groupby":
+        def groupby(it, col, **k):
+            v = t.cols[col]
+            if is_sym(v):
+                raise EngineError("groupby over a symbolic key column (enumerate the key in the contract)")
+            return [(v, t)]
+        return nat(groupby)
     if name == "shape":
         return (SV(t.space.n), len(t.cols))
     if name == "copy":
